@@ -866,6 +866,17 @@ func (s *bSys) settle() {
 		if c.src != head.Src {
 			s.out.add("call-routed-to-other-source")
 		}
+	} else if s.phase == bRunning && len(s.queue) > 0 {
+		// the node is quiescent and waits for nobody: every delivered announcement was consumed,
+		// yet some produced neither a fetch nor an outcome report
+		for _, a := range s.queue {
+			b := s.blocks[a.H]
+			if !s.stored[a.H] && !s.edge(b) && !s.mustNotKeep(b) {
+				s.fail("C15/listener/announcement-consumed-without-outcome: the announcement of height %d by %s was consumed without a fetch and without an outcome report although nothing is stored under that height", a.H, a.Src)
+				return
+			}
+		}
+		s.queue = nil
 	}
 	// availability path
 	if s.avRunning {
@@ -923,11 +934,16 @@ func (s *bSys) verdict(a bAnn, result string) {
 		switch {
 		case !obtained:
 			s.fail("C15/listener/failed-ingest-reported-processed: height %d: fetch answer %q, sync answer %q, reported as processed", a.H, s.fetchAns, s.syncAns)
-		case fired != "":
-			s.fail("C15/listener/failed-ingest-reported-processed: height %d: store effect %q failed and the ingest is reported as processed", a.H, fired)
 		case b.spec.Unbuildable:
 			s.fail("C15/listener/failed-ingest-reported-processed: height %d: the block data cannot be extended and the ingest is reported as processed", a.H)
 		default:
+			// (a store effect that failed does not by itself make the ingest a failed one: when
+			// the height is already stored completely - the other ingest path won the race - the
+			// store reports success without needing the effect. What "processed" promises is
+			// judged below: the block must be stored and published.)
+			if fired != "" {
+				s.out.add("listener:processed-although-effect-failed:" + fired)
+			}
 			s.okIng[a.H]++
 			if s.mustKeep(b) {
 				s.stored[a.H] = true
@@ -970,17 +986,18 @@ func (s *bSys) availVerdict(h uint64, err error) {
 	// the height must end up stored iff the check obtained the square (or needs none)
 	justified := false
 	switch {
-	case fired != "":
-	case b.empty:
+	case b.empty && fired == "":
 		justified = true
 	case s.avStored0 || s.stored[h]:
 		justified = true
 	case s.avGetAns == "eds":
+		// also when a store effect failed: the store may succeed without it if the other ingest
+		// path stored the height meanwhile; "nil" then still promises that the height is stored
 		justified = true
 	}
 	switch {
 	case err == nil && !justified:
-		s.fail("C15/avail/available-without-square: SharesAvailable(height %d) returns nil although the square was not obtained (getter answer %q, store fault %q) and was not stored before", h, s.avGetAns, fired)
+		s.fail("C15/avail/available-without-square: SharesAvailable(height %d) returns nil although the square was not obtained (getter answer %q, failed store effect %q) and was not stored before", h, s.avGetAns, fired)
 	case err == nil:
 		s.stored[h] = true
 	case fired != "" || (s.avGetAns != "" && s.avGetAns != "eds"):
